@@ -478,6 +478,9 @@ def main(tier):
     import c09_sched, mclib
     try:
         sched = c09_sched.sched_part(chk, tier) or {}
+    except mclib.PipelineFailure as e:
+        mclib.report_pipeline_failure(chk, e, 'bin/check C09 quick')
+        return chk.finish()
     except mclib.MachineryError as e:
         print('MACHINERY-ERROR C09: %s' % e)
         return 2
